@@ -954,9 +954,70 @@ fn extract<'tcx>(tcx: TyCtxt<'tcx>, name: &str) -> J {
         }
     }
 
+    // ---- shortest path by which each local item can be named from the crate root (through `mod`, `use` and
+    //      `pub use` bindings of any visibility).  A module split that keeps the old names importable keeps these.
+    let mut canon: Vec<J> = Vec::new();
+    {
+        use rustc_hir::def::Res;
+        use std::collections::{HashMap, HashSet, VecDeque};
+        let mut best: HashMap<DefId, Vec<String>> = HashMap::new();
+        let mut seen: HashSet<DefId> = HashSet::new();
+        let mut q: VecDeque<(rustc_span::def_id::LocalDefId, Vec<String>)> = VecDeque::new();
+        q.push_back((rustc_span::def_id::CRATE_DEF_ID, Vec::new()));
+        seen.insert(rustc_span::def_id::CRATE_DEF_ID.to_def_id());
+        while let Some((m, path)) = q.pop_front() {
+            if path.len() > 5 {
+                continue;
+            }
+            for ch in tcx.module_children_local(m).iter() {
+                if let Res::Def(kind, did) = ch.res {
+                    if !did.is_local() {
+                        continue;
+                    }
+                    let nm = ch.ident.name.to_string();
+                    if nm == "_" {
+                        continue;
+                    }
+                    let mut p = path.clone();
+                    p.push(nm);
+                    match kind {
+                        DefKind::Mod => {
+                            if seen.insert(did) {
+                                best.entry(did).or_insert(p.clone());
+                                q.push_back((did.expect_local(), p));
+                            }
+                        }
+                        DefKind::Struct | DefKind::Enum | DefKind::Union | DefKind::Trait | DefKind::Fn | DefKind::Const { .. } | DefKind::Static { .. } | DefKind::TyAlias => {
+                            let defp = with_no_trimmed_paths!(tcx.def_path_str(did));
+                            let e = best.entry(did).or_insert(p.clone());
+                            // BFS order gives the shortest first; among equally short names prefer the defining one
+                            if p.len() == e.len() && p.join("::") == defp {
+                                *e = p;
+                            }
+                        }
+                        _ => {}
+                    }
+                }
+            }
+        }
+        let mut rows: Vec<(String, String)> = Vec::new();
+        for (did, p) in best.iter() {
+            let defp = with_no_trimmed_paths!(tcx.def_path_str(*did));
+            let cp = p.join("::");
+            if cp != defp {
+                rows.push((defp, cp));
+            }
+        }
+        rows.sort();
+        for (d, c) in rows {
+            canon.push(o(vec![("def", s(d)), ("canon", s(c))]));
+        }
+    }
+
     let sess = tcx.sess;
     o(vec![
         ("crate", s(name)),
+        ("canon_paths", J::Arr(canon)),
         (
             "cfg",
             o(vec![
